@@ -42,7 +42,11 @@ func (rc *CRespCodec) Decode(c CConn) (*Msg, error) {
 
 	line, err := buf.ReadLine()
 	if err != nil {
-		return nil, errors.ErrIncompletePacket
+		if err == codec.ErrLFNotFound {
+			return nil, errors.ErrIncompletePacket
+		}
+		// the line is complete but is not a RESP line: it can never become a valid request
+		return nil, codec.ErrInvalidResp
 	}
 
 	msgId++
@@ -53,7 +57,7 @@ func (rc *CRespCodec) Decode(c CConn) (*Msg, error) {
 		n, err = parseLen(line[1:])
 		if n < 1 || err != nil {
 			logging.Warnf("[%dm][%dc] unexpect resp, buf: %s", msgId, c.Fd(), utils.FormatRedisRESPMessages(buf.PeekAll()))
-			return nil, err
+			return nil, codec.ErrInvalidResp
 		}
 	default:
 		logging.Warnf("[%dm][%dc] unexpect resp, buf: %s", msgId, c.Fd(), utils.FormatRedisRESPMessages(buf.PeekAll()))
